@@ -15,13 +15,17 @@ THEOREMS = []
 
 
 def one(job):
-    """worker: (seed, combos) → (problems, description, replay blob or None)"""
+    """worker: (seed, combos[, 'long']) → (problems, description, replay blob or None)"""
     import random
     import logging
     logging.disable(logging.CRITICAL)
-    seed, combos = job
+    seed, combos = job[:2]
     rng = random.Random(seed)
-    sc = e2e.Scenario(rng, combos)
+    if len(job) > 2:      # a long history of tiny records: sequence numbers, RC4 position and CBC residue far from zero
+        app = [[(rng.randrange(2), rng.randbytes(rng.randrange(0, 4))) for _ in range(rng.randrange(270, 400))]]
+        sc = e2e.Scenario(rng, combos, app=app)
+    else:
+        sc = e2e.Scenario(rng, combos)
     r = tool.run(sc.capture(), sc.keylog_text())
     if r.crashed:
         return [(-1, r.signature())], sc.describe(), sc.replay_blob()
@@ -39,11 +43,15 @@ def jobs_for(ctx, scale=1):
             jobs.append((rng.getrandbits(48), [c]))
         for _ in range(2000 * scale):
             jobs.append((rng.getrandbits(48), [e2e.random_combo(rng)]))
+        for _ in range(60 * scale):
+            jobs.append((rng.getrandbits(48), [e2e.random_combo(rng)], "long"))
     else:
         for c in reps:                           # every cipher class × version once
             jobs.append((rng.getrandbits(48), [c]))
         for _ in range(60 * scale):
             jobs.append((rng.getrandbits(48), [e2e.random_combo(rng)]))
+        for _ in range(3 * scale):
+            jobs.append((rng.getrandbits(48), [e2e.random_combo(rng)], "long"))
     return jobs
 
 
@@ -51,7 +59,8 @@ def explore(ctx, scale=1):
     jobs = jobs_for(ctx, scale)
     results = tool.pmap(one, jobs) if len(jobs) > 200 else [one(j) for j in jobs]
     o = ctx.oracle.setdefault("tls-export", {"runs": 0, "violations": 0})
-    for (seed, combos), (probs, desc, blob) in zip(jobs, results):
+    for job, (probs, desc, blob) in zip(jobs, results):
+        seed, combos = job[:2]
         o["runs"] += 1
         d = desc[0]
         cls = e2e.suite_class(int(d["suite"], 16), d["version"], d["etm"])
@@ -81,7 +90,7 @@ def explore(ctx, scale=1):
 def run(ctx):
     ctx.rule = ("one TLS connection per capture from the independent sender: (version, table suite, MtE/EtM) × random "
                 "handshake shape (full/abbreviated, message grouping, session-id length, extensions, TLS 1.3 with/without "
-                "handshake secrets, record padding, tickets) × 3–10 application records in random direction order with "
+                "handshake secrets, record padding, tickets) × 3–10 application records (and a few histories of 270–400 tiny records) in random direction order with "
                 "lengths from {0,1,…,16384} × segmentation (flight / record / MSS / random cuts) × IPv4/IPv6. quick: every "
                 "cipher class × version once + 60 random; thorough: every table suite × version × MtE/EtM + 2000 random. "
                 "non-trivial iff ≥ 2 application records in one direction and ≥ 1 in the other were exported exactly; "
